@@ -202,6 +202,16 @@ func oracleC04(p *plan.Plan, his []plan.Rec, res *plan.Result) {
 					continue
 				}
 				if c.Found != prim.Found {
+					// the copies are read one after the other: a copy whose deadline falls before the end
+					// of the census may have been read before it and the other copy after it
+					seen := prim
+					if c.Found {
+						seen = c
+					}
+					if seen.TTL != 0 && seen.TTL <= bubbleEpochMs+r.TRet/1e6+1 {
+						res.Counters["oracle.expired_during_census"]++
+						continue
+					}
 					viol(res, "backup-presence-differs/"+opClass(r.Info), r.Op.Key, "after %s: primary(m%d) found=%v val=%q ttl=%d ts=%d, backup(m%d) found=%v val=%q ttl=%d ts=%d",
 						r.Info, prim.Member, prim.Found, prim.Val, prim.TTL, prim.TS, c.Member, c.Found, c.Val, c.TTL, c.TS)
 				} else if c.Found && (c.Val != prim.Val || c.TTL != prim.TTL || c.TS != prim.TS) {
